@@ -29,6 +29,8 @@ def task(arg):
     lf = retmodel.Lifter(year, K, S, forms, ft='ref', nonneg=True, timeout_ms=30000)
     rm = lf.rm
     res = {'year': year, 'obl': [], 'viol': [], 'stats': None}
+    res['model_paths'] = sum(len(v) for v in rm.summ.values())
+    res['model_lines'] = len(rm.summ)
     if do_balance == 'federal' and all(('1040.' + x) in rm.summ for x in ('24', '33', '34', '35a', '36', '37')):
         L = {x: rm.lvar['1040.' + x][1] for x in ('24', '33', '34', '35a', '36', '37')}
         qs = [('34-37==33-24', tm.ne(tm.sub(L['34'], L['37']), tm.sub(L['33'], L['24'])), '1040.34'),
@@ -92,7 +94,9 @@ def run(tier):
         if tier == 'thorough' or os.environ.get('HV_C15_NC') == '1':
             tasks.append((y, K, S, ['1040', 'nc_d-400'], nc, 'nc'))
     results = common.pmap(task, tasks)
+    mp = {}
     for r in results:
+        mp[r['year']] = (r.get('model_lines', 0), r.get('model_paths', 0))
         for nm, res, dt, desc in r['obl']:
             c.obligation(nm, res, dt, sample={'obligation': nm, 'query': desc, 'result': res})
         for v in r['viol']:
@@ -104,4 +108,6 @@ def run(tier):
                 c.spurious += 1
                 c.inconclusive.append('witness did not reproduce: %s (%s)' % (v['key'], out.get('detail')))
         c.solver_s += r['stats']['secs']
+    c.paths += sum(v[1] for v in mp.values())
+    c.extra['whole_return_model'] = {str(y): {'lines': v[0], 'symbolic_paths_composed': v[1]} for y, v in mp.items()}
     return c.finish()
